@@ -305,9 +305,24 @@ def phase_notify(args):
             if r in joins:
                 if ep2 in eg.subscribed_endpoints:
                     eg.unsubscribe(ep2)
+                # the address lookups of the new subscriber's initial notification and of the round below are answered
+                # together, in one loop iteration, in an order that differs from join to join: whatever reaches the wire
+                # first must carry the lower ids
+                loop.gai_hold = 3
                 eg.subscribe(ep2)
+                eg.notify_once(list(eg.values.keys()))
                 loop.settle()
-            eg.notify_once(list(eg.values.keys()))
+                order = {0: (0, 0, 0), 1: (2, 0, 0), 2: (1, 1, 0)}[sorted(joins).index(r)]
+                for idx in order:
+                    if loop.gai_pending:
+                        loop.release_gai(min(idx, len(loop.gai_pending) - 1))
+                loop.gai_hold = 0
+                loop.settle()
+                while loop.gai_pending:
+                    loop.release_gai(0)
+                loop.settle()
+            else:
+                eg.notify_once(list(eg.values.keys()))
             loop.settle()
             for _, _, data, addr in s.transport.sent:
                 msgs, err, _ = refcodec.dec_someip_all(data)
